@@ -245,7 +245,7 @@ func compare(s *Spec, kinds [][]string, solo, sim [][]*OpResult, skip [][]bool, 
 				vs = append(vs, v)
 			case a.Late != b.Late:
 				v := mk("value", "late")
-				v.Detail = "a buffer/string returned by the call changed after it returned"
+				v.Detail = fmt.Sprintf("a buffer/string returned by the call changed after it returned (hash of returned buffers at end of run: interleaved %016x, alone %016x)", b.Late, a.Late)
 				vs = append(vs, v)
 			}
 		}
